@@ -64,6 +64,9 @@ def spaces(tier, seed):
                                            "base": range(len(BASES)), "parser": ["absolute"]}))
     sp.append(Product("month-year-with-a-clock-time", {"y": [4, 1900, 2000, 2015, 2016, 2100] if not T else YEARS, "m": range(1, 13), "form": list(FORMS_T), "pd": PD, "pm": PD,
                                                        "base": [0, 1, 2, 4, 5, 6, 9, 18, 23, 26] if not T else range(len(BASES)), "parser": ["absolute"]}))
+    sp.append(Product("month-only-with-a-year-preference", {"m": range(1, 13), "form": ["Month", "Mon", "Month HH:MM"], "pd": PD, "pdf": ["past", "future", "current_period"],
+                                                            "xb": BASES + [datetime(2015, 6, 30, 12, 0), datetime(2017, 1, 31, 8, 0), datetime(2015, 3, 29, 0, 0), datetime(2100, 3, 31, 0, 0)]},
+                      note="a month name alone: which year is chosen is C09's subject; here the filled-in day must fit the year and month actually returned"))
     sp.append(Product("year-only", {"y": YEARS + [1000, 1530, 2359, 1960, 99], "m": [0], "form": ["YYYY"], "pd": PD, "pm": PD,
                                     "base": range(len(BASES)), "parser": ["absolute"]}))
     sp.append(Product("full-dates-unaltered", {"y": [4, 1900, 2000, 2023, 2024], "m": range(1, 13), "d": [1, 15, 28, 29, 30, 31],
@@ -115,7 +118,41 @@ def expected(c, base):
     return datetime(y, m, d), per
 
 
+def run_month_only(c):
+    base = c["xb"]
+    mon = cal.MONTHS[c["m"] - 1].capitalize()
+    s = {"Month": mon, "Mon": mon[:3], "Month HH:MM": mon + " 10:30"}[c["form"]]
+    st = {"RELATIVE_BASE": base, "PREFER_DAY_OF_MONTH": c["pd"], "PREFER_DATES_FROM": c["pdf"]}
+    o = api.outcome_of(api.gdd, s, ["en"], None, None, st, None, False, False)
+    if o[0] == "exc":
+        kind, got = "exception:" + o[1], o[1:]
+    else:
+        r = o[1].date_obj
+        got = (r, o[1].period)
+        if r is None:
+            kind = "none"
+        else:
+            last = cal.month_len(r.year, c["m"])
+            d = {"first": 1, "last": last, "current": min(base.day, last)}[c["pd"]]
+            tm = (10, 30) if c["form"].endswith("HH:MM") else (0, 0)
+            if r.month != c["m"]:
+                kind = "wrong-month"
+            elif r.day != d:
+                kind = "wrong-day-for-the-returned-year"
+            elif (r.hour, r.minute, r.second) != tm + (0,):
+                kind = "wrong-time"
+            elif not c["form"].endswith("HH:MM") and o[1].period != "month":
+                kind = "wrong-period"
+            else:
+                return "ok", True, None
+    return "bad", True, {"cls": {"form": "month-only:" + c["form"], "parser": "absolute", "pd": c["pd"], "pm": c["pdf"], "kind": kind},
+                         "expected": "month kept, day per PREFER_DAY_OF_MONTH in the returned year, period month", "observed": got,
+                         "detail": {"string": s, "settings": st}}
+
+
 def run_case(sub, c):
+    if sub == "month-only-with-a-year-preference":
+        return run_month_only(c)
     base = c["xbase"] if "xbase" in c else BASES[c["base"]]
     if "d" in c and not cal.valid(c["y"], c["m"], c["d"]):
         return None
@@ -140,4 +177,6 @@ def run_case(sub, c):
 
 
 def describe(sub, c):
+    if "y" not in c:
+        return dict(c)
     return {"string": render(c["form"], c["y"], c["m"], c.get("d"))}
